@@ -86,9 +86,10 @@ class GatewarePHY(Elaboratable):
         and ``vbus_valid`` signals are optional.
     """
 
+    # These match the UTMI OpMode encoding [UTMI+ spec; see also UTMIOperatingMode].
     OP_MODE_NORMAL      = 0b00
-    OP_MODE_NONDRIVING  = 0b10
-    OP_MODE_NO_ENCODING = 0b01
+    OP_MODE_NONDRIVING  = 0b01
+    OP_MODE_NO_ENCODING = 0b10
 
     def __init__(self, *, io):
         self._io = io
